@@ -1618,8 +1618,10 @@ def canon(expr, params=(), rename=None, consts=None):
                 if isinstance(v, ast.UnaryOp):
                     return v.operand
                 return ast.Compare(left=v.left, ops=[_NEG_CMP[type(v.ops[0])]()], comparators=v.comparators)
-            if isinstance(t, ast.BoolOp) and isinstance(t.op, ast.Or) and all(negative(v) for v in t.values):
-                return c(ast.IfExp(test=ast.BoolOp(op=ast.And(), values=[positive(v) for v in t.values]), body=e.orelse, orelse=e.body))
+            # one form for a compound test: a conjunction is written as the disjunction of the negations, arms exchanged
+            # (`x if (p and q) else n` is `n if (not p or not q) else x`)
+            if isinstance(t, ast.BoolOp) and isinstance(t.op, ast.And):
+                return c(ast.IfExp(test=ast.BoolOp(op=ast.Or(), values=[ast.UnaryOp(op=ast.Not(), operand=v) for v in t.values]), body=e.orelse, orelse=e.body))
             # `a if not c else b` is `b if c else a` (same orientation rule as for statements)
             if isinstance(t, ast.UnaryOp) and isinstance(t.op, ast.Not):
                 return c(ast.IfExp(test=t.operand, body=e.orelse, orelse=e.body))
@@ -1636,6 +1638,10 @@ def canon(expr, params=(), rename=None, consts=None):
             if isinstance(x, ast.Call) and isinstance(x.func, ast.Name) and x.func.id == 'list' and len(x.args) == 1 and not x.keywords:
                 return c(x.args[0])
             return c(x)
+        if isinstance(e, ast.ListComp) and len(e.generators) == 1 and not e.generators[0].ifs and isinstance(e.elt, ast.Name) \
+                and isinstance(e.generators[0].target, ast.Name) and e.elt.id == e.generators[0].target.id:
+            # [x for x in xs] is list(xs)
+            return c(ast.Call(func=ast.Name(id='list', ctx=ast.Load()), args=[e.generators[0].iter], keywords=[]))
         if isinstance(e, (ast.ListComp, ast.SetComp, ast.GeneratorExp)):
             gens = tuple(('gen', c(g.target), it(g.iter), tuple(c(i) for i in g.ifs)) for g in e.generators)
             return ('comp', 'set' if isinstance(e, ast.SetComp) else 'seq', c(e.elt)) + gens
